@@ -104,6 +104,24 @@ func (c *Ctx) MinCount(prefix string, n int, what string) {
 	}
 }
 
+// importObls runs another property's rule set on the same world and records the obligations selected by keep under this
+// property, with the given key prefix (a clause that two properties share is decided once, by one rule, and reported for both).
+func (c *Ctx) importObls(prop string, run func(*Ctx), prefix string, keep func(key string) bool) {
+	sub := NewCtx(c.W, prop, c.Tier)
+	run(sub)
+	c.Evals += sub.Evals
+	for f := range sub.FnSeen {
+		c.FnSeen[f] = true
+	}
+	for _, o := range sub.Obls {
+		k := strings.TrimPrefix(o.Key, prop+"/")
+		if strings.HasSuffix(k, "#count") || !keep(k) {
+			continue
+		}
+		c.add(&Obligation{Key: prefix + k, Rule: o.Rule + " [rule of " + prop + "]", Status: o.Status, Site: o.Site, Detail: o.Detail, Path: o.Path})
+	}
+}
+
 func (c *Ctx) SeenFn(name string) { c.FnSeen[name] = true }
 
 // KnownFinding is one line of known_findings.txt.
